@@ -1,4 +1,5 @@
 """C03 — reported cofactors are the true (generalised) inverse."""
+import concurrent.futures
 import glob
 from fractions import Fraction as F
 from lib.core import *
@@ -34,6 +35,9 @@ MODELLED = ["IEEE rounding (proofs over exact ordered fields)",
 ASSUMPTIONS = ["rank numerically unambiguous: generator keeps exact small-integer/dyadic data so every pivot is 0 or O(1)"]
 
 ALGS = ["env", "chol", "gso", "svd"]
+# quick-tier minimum of the case mix (cases = problem x subset x algorithm x entry); not met -> inconclusive
+CASE_MIN = {"cases_defect_3": 80, "cases_defect_4": 60, "cases_defect_ge3_proper_resolving": 100,
+            "cases_defect_ge3_proper_not_resolving": 40, "chol_gs_cases_swapped": 15, "chol_gs_cases_offid": 6}
 
 
 def queries(p, entry):
@@ -46,20 +50,70 @@ def queries(p, entry):
     return q
 
 
-def make_cases(ctx, nprob):
+def quota(nprob, thorough=False):
+    """guaranteed problems on top of the historical mix: free-network Jacobians (defect 3 and 4, every kind) and
+    two-part problems, each with PROPER regularisation subsets"""
+    return {"free": max(12, nprob // 4), "parts": max(4, nprob // 8)} if thorough else {"free": 12, "parts": 4}
+
+
+def make_cases(ctx, nprob, quota_=None):
+    """meta = (p, S, alg, entry, ok); ok = False: S does not resolve the defect (every cofactor of the unknowns
+    must be refused; asked of brand-new objects, `fresh`, so that no history is involved)"""
     cases, meta = [], []
+    quota_ = quota(nprob, ctx.thorough) if quota_ is None else quota_
+    probs = []
     for _ in range(nprob):
         p = g.gen_problem(ctx.rng)
-        subs = [s for s in g.gen_subsets(ctx.rng, p, 2) if s[1]]
-        for S, _ok in subs[:2]:
+        probs.append((p, [s for s in g.gen_subsets(ctx.rng, p, 2) if s[1]][:2]))
+    for k in range(quota_.get("free", 0)):
+        p = g.gen_problem(ctx.rng, family="free-" + g.FREE_KINDS[k % len(g.FREE_KINDS)], correlated=(k % 3 == 2))
+        probs.append((p, g.gen_proper_subsets(ctx.rng, p, 2, 1) + ([(list(range(1, p["n"] + 1)), True)] if k % 2 else [])))
+    for k in range(quota_.get("parts", 0)):
+        p = g.gen_problem(ctx.rng, family="parts", correlated=(k % 3 == 2))
+        probs.append((p, g.gen_proper_subsets(ctx.rng, p, 2, 1)))
+    for p, subs in probs:
+        for S, ok in subs:
             for alg in ALGS:
                 for entry in ("solver", "adj"):
                     if entry == "solver" and alg != "env" and not p["unit_cov"]:
                         continue
                     reg = "all" if (len(S) == p["n"] and ctx.rng.random() < 0.5) else S
-                    cases.append(g.problem_lines(p, reg) + [f"new {alg} {entry}"] + queries(p, entry))
-                    meta.append((p, S, alg, entry))
+                    qs = queries(p, entry)
+                    if not ok:
+                        qs = ["fresh " + q for q in qs if not q.startswith("qbb") or q.split()[1] == q.split()[2]]
+                    cases.append(g.problem_lines(p, reg) + [f"new {alg} {entry}"] + qs)
+                    meta.append((p, S, alg, entry, ok))
     return cases, meta
+
+
+def refused_oracle(p, S, alg, entry, case, out):
+    """S does not resolve the defect: no cofactor of the unknowns may be reported"""
+    k = case.index("end") + 2
+    if len(out) < 2 or out[0] != "ok" or out[1] != "ok":
+        return ["harness protocol: " + " | ".join(out[:3])]
+    for q, l in zip(case[k:], out[2:]):
+        q = q.replace("fresh ", "")
+        if q.startswith("qxx") and not l.startswith("throw"):
+            return [f"regularisation subset {S} does not resolve the defect {p['defect']} but '{q}' was answered ({l[:40]})"]
+        if q == "defect" and l != f"int {p['defect']}" and not l.startswith("throw"):
+            return [f"defect reported '{l}' but n - rank A = {p['defect']}"]
+    return []
+
+
+def gs_trace(ctx, cases, meta):
+    """model-only probe `gstrace` of drv_ls (pivot order of AdjCholDec's null-space Gram-Schmidt): (swapped, offid) counts"""
+    probe = []
+    for c, (p, S, alg, entry, ok) in zip(cases, meta):
+        if alg == "chol" and ok and p["defect"] >= 2:
+            probe.append(c[:c.index("end") + 2] + ["gstrace"])
+    out, _ = run_cases(ctx.driver("drv_ls"), probe)
+    sw = off = 0
+    for o in out:
+        t = o[-1].split() if o else []
+        if len(t) >= 7 and t[0] == "gstrace" and t[2] == "ok":
+            sw += int(t[4]) > 0
+            off += int(t[6])
+    return len(probe), sw, off
 
 
 def val(line):
@@ -160,19 +214,28 @@ def oracle(p, S, alg, entry, out, ref):
 def correspond(ctx, corr):
     exe = c01.harness(ctx)
     cases, meta = make_cases(ctx, ctx.size(30, 600))
-    impl, crashes = run_cases(exe, cases)
-    model, _ = run_cases(ctx.driver("drv_ls"), cases)
+    with concurrent.futures.ThreadPoolExecutor(max_workers=2) as ex:
+        fm = ex.submit(g.run_cases_par, ctx.driver("drv_ls"), cases, 3)
+        impl, crashes = g.run_cases_par(exe, cases, 4)
+        model, _ = fm.result()
+    traced, sw, off = gs_trace(ctx, cases, meta)
+    corr.count("chol_gs_cases_traced", traced)
+    corr.count("chol_gs_cases_swapped", sw)
+    corr.count("chol_gs_cases_offid", off)
     # exact stream: regular, unit covariance, envelope solver (square-root free)
-    ratidx = [i for i, (p, S, alg, entry) in enumerate(meta)
+    ratidx = [i for i, (p, S, alg, entry, ok) in enumerate(meta)
               if alg == "env" and entry == "solver" and p["unit_cov"] and p["defect"] == 0]
     ratout, _ = run_cases(ctx.driver("drv_ls"), [cases[i] for i in ratidx], args=("rat",))
     refs = {}
-    for i, (c, (p, S, alg, entry)) in enumerate(zip(cases, meta)):
+    for i, (c, (p, S, alg, entry, ok)) in enumerate(zip(cases, meta)):
         nontrivial = p["defect"] > 0 or not p["unit_cov"]
         corr.case(key=(" ".join(c)) if nontrivial else None,
                   sample={"ops": c[:c.index("end") + 3] + ["..."], "impl": impl[i][:6]} if i in (0, 5) else None)
         corr.count(f"alg_{alg}_{entry}")
         corr.count("singular" if p["defect"] else "regular")
+        corr.count(f"cases_defect_{p['defect']}")
+        if p["defect"] >= 3 and len(S) < p["n"]:
+            corr.count("cases_defect_ge3_proper_" + ("resolving" if ok else "not_resolving"))
         corr.count("correlated" if not p["unit_cov"] else "unit_cov")
         corr.count("family_" + p["family"])
         if i in crashes:
@@ -195,10 +258,13 @@ def correspond(ctx, corr):
                 corr.disagree("ls", c, impl[i], model[i], "length")
         corr.count("not_modelled" if nm else "modelled")
         corr.count("answers_compared", pairs)
-        key = (id(p), tuple(S))
-        if key not in refs:
-            refs[key] = g.reference(p, S)
-        bad = oracle(p, S, alg, entry, impl[i], refs[key])
+        if not ok:
+            bad = refused_oracle(p, S, alg, entry, c, impl[i])
+        else:
+            key = (id(p), tuple(S))
+            if key not in refs:
+                refs[key] = g.reference(p, S)
+            bad = oracle(p, S, alg, entry, impl[i], refs[key])
         if bad:
             corr.fail("; ".join(bad), {"stream": "ls", "ops": c, "subset": S}, f"{alg}/{entry}", " | ".join(impl[i][:8]))
     for k, i in enumerate(ratidx):
@@ -217,6 +283,9 @@ def correspond(ctx, corr):
         corr.inconclusive.append("fewer than 25% singular problems")
     if not corr.stats.get("rat_cases"):
         corr.inconclusive.append("no regular unit-covariance problem for the exact stream")
+    for k, need in CASE_MIN.items():
+        if corr.stats.get(k, 0) < need:
+            corr.inconclusive.append(f"case mix: {k} = {corr.stats.get(k, 0)} < {need}")
 
 
 def search(ctx, broken, corr):
@@ -226,14 +295,17 @@ def search(ctx, broken, corr):
     cases, meta = make_cases(big, 150)
     impl, crashes = run_cases(exe, cases)
     out, refs = [], {}
-    for i, (c, (p, S, alg, entry)) in enumerate(zip(cases, meta)):
+    for i, (c, (p, S, alg, entry, ok)) in enumerate(zip(cases, meta)):
         if i in crashes:
             out.append(Failure("solver crashed / sanitizer report", {"stream": "ls", "ops": c}, f"{alg}/{entry}", crashes[i][1]))
             continue
-        key = (id(p), tuple(S))
-        if key not in refs:
-            refs[key] = g.reference(p, S)
-        bad = oracle(p, S, alg, entry, impl[i], refs[key])
+        if not ok:
+            bad = refused_oracle(p, S, alg, entry, c, impl[i])
+        else:
+            key = (id(p), tuple(S))
+            if key not in refs:
+                refs[key] = g.reference(p, S)
+            bad = oracle(p, S, alg, entry, impl[i], refs[key])
         if bad:
             out.append(Failure("; ".join(bad), {"stream": "ls", "ops": c, "subset": S}, f"{alg}/{entry}", " | ".join(impl[i][:8])))
         if len(out) >= 5:
